@@ -120,7 +120,17 @@ pub fn default_metadata(rng: &mut Rng) -> StreamMetadata {
         m.audio_is_stereo = Some(rng.coin());
     }
     if rng.coin() {
-        m.encoder = Some(match rng.below(4) {
+        m.encoder = Some(match rng.below(6) {
+            // text is text: control characters, white space and digits at either end or alone
+            4 => {
+                let e = *rng.pick(&["\u{0}", " ", "\t", "\n", "\r\n", "\u{feff}", "\u{a0}", "\u{0}\u{0}\u{0}"]);
+                match rng.below(3) {
+                    0 => format!("Lavf58.29.100{}", e),
+                    1 => format!("{}Lavf58.29.100", e),
+                    _ => format!("{}enc{}", e, e),
+                }
+            }
+            5 => rng.pick(&["1280", "0", "true", "null", "NaN", "undefined", "-1.5e3"]).to_string(),
             0 => String::new(),
             1 => "obs-output module (libobs version 27.0.1)".to_string(),
             2 => "é中😀".to_string(),
